@@ -206,7 +206,11 @@ func main() {
 		if b, err := os.ReadFile(*replay); err == nil {
 			var rp Plan
 			if json.Unmarshal(b, &rp) == nil {
-				setupProcess(rp.Property, "")
+				base := ""
+				if raceLogPrefix != "" {
+					base = raceLogPrefix + ".c17" // kept: the driver reads what the Go runtime wrote before killing the process
+				}
+				setupProcess(rp.Property, base)
 			}
 		}
 		os.Exit(doReplay(*replay))
